@@ -23,6 +23,9 @@ Proof.
     destruct t as [[]| |[]| | | | |[]|[]|[]|]; vm_compute; reflexivity.
 Qed.
 
+Lemma base_operation_spec : forall t, is_base_operation t = is_op t.
+Proof. destruct t as [[]| |[]| | | | |[]|[]|[]|]; vm_compute; reflexivity. Qed.
+
 (* ---------------------------------------------------------------- small list facts *)
 
 Lemma NoDup_app_intro {A} (a b : list A) :
@@ -302,14 +305,13 @@ Section Proofs.
 
   (* ---- status: the weakest condition on (matching, other) under which every status is the
      truth value.  For a sub-expression n at path p:
-       - no operand to compute from: the status inherited from the nearest element of
-         matching ∪ other at or above p must be the value of n;
-       - otherwise: if p is reported as matching, n must be true before its own negation. *)
+       - a leaf (nothing to compute from, not an operation): the status inherited from the nearest
+         element of matching ∪ other at or above p must be the value of n;
+       - otherwise (an operation - with or without operands - or an element with one operand): if p
+         is reported as matching, n must be true before its own negation. *)
   Definition node_good (n : item) (p : path) : Prop :=
-    match pchildren n with
-    | [] => sfp p = EV n p
-    | _ => In p M -> EV n p = negb (is_negation n)
-    end.
+    if is_leaf n then sfp p = EV n p
+    else In p M -> EV n p = negb (is_negation n).
 
   Definition good (t : item) (pre : path) : Prop :=
     forall r n, subexpr_at t r = Some n -> node_good n (pre ++ r).
@@ -373,26 +375,26 @@ Section Proofs.
     pose proof (Hg [] t eq_refl) as Hnode. rewrite app_nil_r in Hnode.
     (* the status of the node *)
     assert (Hb : (let v := if mem_path pre M then true
-                           else match sts with
-                                | [] => sfp pre
-                                | _ => if is_or_node d t then existsb (fun b => b) sts
-                                       else forallb (fun b => b) sts
-                                end in
+                           else if truthy sts || is_base_operation t then
+                                  (if is_or_node d t then existsb (fun b => b) sts
+                                   else forallb (fun b => b) sts)
+                           else sfp pre in
                   if is_negation_node t then negb v else v) = EV t pre).
-    { rewrite negation_node_spec, or_node_spec. fold dor. unfold node_good in Hnode.
-      destruct (pchildren t) as [|c cs] eqn:Hpc.
-      - simpl in Hsts. subst sts.
+    { rewrite negation_node_spec, or_node_spec, base_operation_spec. fold dor.
+      unfold node_good in Hnode. destruct (is_leaf t) eqn:Hleaf.
+      - pose proof (is_leaf_pchildren t Hleaf) as Hpc. rewrite Hpc in Hsts. simpl in Hsts. subst sts.
         assert (Hneg : is_negation t = false).
         { destruct (is_negation t) eqn:E; [|reflexivity].
-          apply negation_pchildren in E. destruct E as [E _]. congruence. }
-        rewrite Hneg. cbv zeta. destruct (mem_path pre M) eqn:E; [|exact Hnode].
+          apply negation_pchildren in E. destruct E as [_ E]. congruence. }
+        assert (Hop : is_op t = false) by (destruct t; simpl in Hleaf; try discriminate; reflexivity).
+        rewrite Hneg, Hop. cbv zeta. simpl. destruct (mem_path pre M) eqn:E; [|exact Hnode].
         apply mem_path_In in E. rewrite <- Hnode. symmetry. apply sfp_in_M. exact E.
-      - assert (Hleaf : is_leaf t = false).
-        { destruct (is_leaf t) eqn:E; [|reflexivity]. apply is_leaf_pchildren in E. congruence. }
-        cbv zeta. destruct (mem_path pre M) eqn:E.
+      - cbv zeta. destruct (mem_path pre M) eqn:E.
         + apply mem_path_In in E. rewrite (Hnode E). destruct (is_negation t); reflexivity.
-        + rewrite ev_unfold, Hleaf, Hpc, <- Hsts.
-          destruct sts as [|s sts']; [exfalso; symmetry in Hsts; revert Hsts; apply ev_list_nonempty|].
+        + assert (Hc : truthy sts || is_op t = true).
+          { rewrite Hsts. destruct t; simpl in Hleaf; try discriminate; try reflexivity.
+            apply orb_true_r. }
+          rewrite Hc, ev_unfold, Hleaf, <- Hsts.
           destruct (is_negation t); [reflexivity|]. symmetry. apply xorb_false_l. }
     unfold resolve in H. cbv zeta in Hb. rewrite Hb in H.
     assert (Hsub : forall p, In p oks <->
@@ -501,17 +503,11 @@ Section Proofs.
   Qed.
 
   Theorem reported_good t :
-    reported sigma t M O -> no_empty_all dor t -> good t [].
+    reported sigma t M O -> good t [].
   Proof.
-    intros [R1 R2] Hne r n Hs. simpl.
+    intros [R1 R2] r n Hs. simpl.
     assert (Hnamed_M : forall q n0, subexpr_at t q = Some n0 -> In q M -> In q (M ++ O)).
     { intros. apply in_or_app. auto. }
-    (* a sub-expression with an operation at or beneath it is not reported as matching *)
-    assert (Hop : forall q n0 r0 k m ops, subexpr_at t q = Some n0 ->
-                    subexpr_at n0 r0 = Some (Op k m ops) -> ~ In q M).
-    { intros q n0 r0 k m ops Hq Hr0 Hin.
-      pose proof (R1 q n0 Hq (Hnamed_M _ _ Hq Hin)) as H.
-      rewrite (covered_op_none n0 q r0 k m ops Hr0) in H. contradiction. }
     (* leaves *)
     assert (Hleaf : is_leaf n = true -> sfp r = EV n r).
     { intros Hl. rewrite (ev_leaf _ _ Hl).
@@ -524,22 +520,146 @@ Section Proofs.
         + apply sfp_in_M. apply H. reflexivity.
         + assert (Hnm : ~ In q M) by (intros Hin; apply H in Hin; discriminate).
           apply sfp_in_O; [exact Hnm|]. apply in_app_or in Hnamed. destruct Hnamed; [contradiction|assumption]. }
-    (* elements with a single operand, reported as matching *)
-    assert (Hchain : pchildren n <> [] -> In r M -> EV n r = negb (is_negation n)).
-    { intros _ Hin. pose proof (R1 r n Hs (Hnamed_M _ _ Hs Hin)) as H.
+    (* operations are never reported as matching; elements with a single operand reported as
+       matching cover one term, which is true, with no negation in between *)
+    assert (Hchain : In r M -> EV n r = negb (is_negation n)).
+    { intros Hin. pose proof (R1 r n Hs (Hnamed_M _ _ Hs Hin)) as H.
       destruct (covered n r) as [a|] eqn:Hcov; [|contradiction].
       destruct H as [H1 H2]. rewrite (covered_ev n r a Hcov (H2 Hin)).
       rewrite (proj1 H1 Hin). destruct (is_negation n); reflexivity. }
-    unfold node_good.
-    destruct (pchildren n) as [|c cs] eqn:Hpc.
-    - destruct (is_leaf n) eqn:Hl; [apply Hleaf; reflexivity|].
-      (* an operation without operands *)
-      destruct n; simpl in Hl; try discriminate; unfold pchildren in Hpc; simpl in Hpc;
-        try discriminate.
-      subst ops. simpl. rewrite (Hne r k m Hs). simpl.
-      apply sfp_false. intros q r0 Hr. subst r.
-      destruct (subexpr_split _ _ _ _ Hs) as [n0 [Hq Hr0]]. eapply Hop; eauto.
-    - apply Hchain. discriminate.
+    unfold node_good. destruct (is_leaf n) eqn:Hl; [apply Hleaf; reflexivity|exact Hchain].
+  Qed.
+
+  (* ---- the status of a sub-expression without operand, under no premise at all: a leaf inherits
+     the status of the nearest element of matching ∪ other at or above it; an operation with zero
+     operands is any([]) = False / all([]) = True unless its own path is in matching *)
+  Definition bare_status (n : item) (p : path) : bool :=
+    if mem_path p M then true
+    else if is_op n then negb (spec_or dor n) else sfp p.
+
+  Definition bare_spec (t : item) : Prop :=
+    forall pre b ok ko, go t pre = (b, ok, ko) ->
+      forall r n, subexpr_at t r = Some n -> pchildren n = [] ->
+        (In (pre ++ r) ok <-> bare_status n (pre ++ r) = true).
+
+  Lemma resolve_bare n p b ok ko :
+    pchildren n = [] -> resolve d M O n p ([], [], []) = (b, ok, ko) ->
+    b = bare_status n p /\ (In p ok <-> bare_status n p = true).
+  Proof.
+    intros Hpc H. unfold resolve in H.
+    assert (Hneg : is_negation_node n = false).
+    { rewrite negation_node_spec. destruct (is_negation n) eqn:E; [|reflexivity].
+      apply negation_pchildren in E. destruct E as [E _]. congruence. }
+    rewrite Hneg, base_operation_spec, or_node_spec in H. fold dor in H.
+    assert (Hv : (if mem_path p M then true
+                  else if truthy (@nil bool) || is_op n
+                       then (if spec_or dor n then existsb (fun b => b) [] else forallb (fun b => b) [])
+                       else sfp p) = bare_status n p).
+    { unfold bare_status. simpl. destruct (spec_or dor n); reflexivity. }
+    rewrite Hv in H. destruct (bare_status n p); inversion H; subst; simpl; split; try reflexivity.
+    - split; auto.
+    - split; [intros []|discriminate].
+  Qed.
+
+  (* paths of the result sets of a sub-tree extend the path of the sub-tree *)
+  Lemma go_paths_prefix t pre b ok ko p :
+    go t pre = (b, ok, ko) -> In p (ok ++ ko) -> exists r, p = pre ++ r.
+  Proof.
+    intros H Hin. pose proof (propagate_go_part t pre b ok ko H) as HP.
+    apply (Permutation_in _ HP) in Hin. apply cnodes_paths_in in Hin.
+    destruct Hin as [r [n [Hp _]]]. eauto.
+  Qed.
+
+  Lemma prop_list_bare pre : forall l i sts oks kos,
+    Forall bare_spec l -> prop_list go pre i l = (sts, oks, kos) ->
+    forall j c r n, nth_error l j = Some c -> subexpr_at c r = Some n -> pchildren n = [] ->
+      (In (pre ++ (i + j) :: r) oks <-> bare_status n (pre ++ (i + j) :: r) = true).
+  Proof.
+    induction l as [|c l IH]; intros i sts oks kos HF H j c0 r n Hn Hs Hpc; simpl in H.
+    - destruct j; discriminate.
+    - inversion HF as [|? ? Hc HFl]; subst.
+      destruct (go c (pre ++ [i])) as [[b ok] ko] eqn:Hgo.
+      destruct (prop_list go pre (S i) l) as [[bs oks'] kos'] eqn:Hl.
+      inversion H; subst; clear H. rewrite in_app_iff.
+      assert (Hpart : forall p, In p oks' ->
+                exists j' r', p = pre ++ (S i + j') :: r').
+      { intros p Hin.
+        pose proof (prop_list_part pre l (S i) bs oks' kos'
+                      ltac:(apply Forall_forall; intros; apply propagate_go_part) Hl) as HP.
+        assert (Hin' : In p (oks' ++ kos')) by (apply in_or_app; left; exact Hin).
+        clear Hin. rename Hin' into Hin. apply (Permutation_in _ HP) in Hin.
+        apply in_map_iff in Hin. destruct Hin as [[x n'] [Hx Hin]]. simpl in Hx. subst x.
+        apply (cnodes_list_in pre l (S i) p n'
+                 ltac:(apply Forall_forall; intros; apply cnodes_in)) in Hin.
+        destruct Hin as [j' [c' [r' [_ [Hp _]]]]]. eauto. }
+      destruct j as [|j]; simpl in Hn.
+      + inversion Hn; subst c0. rewrite Nat.add_0_r.
+        replace (pre ++ i :: r) with ((pre ++ [i]) ++ r) by (rewrite <- app_assoc; reflexivity).
+        rewrite <- (Hc _ _ _ _ Hgo r n Hs Hpc). split; [|auto].
+        intros [Hin|Hin]; [exact Hin|]. exfalso.
+        destruct (Hpart _ Hin) as [j' [r' Hp]]. rewrite <- app_assoc in Hp.
+        apply app_inv_head in Hp. simpl in Hp. inversion Hp. lia.
+      + replace (i + S j) with (S i + j) by lia.
+        rewrite <- (IH _ _ _ _ HFl Hl j c0 r n Hn Hs Hpc). split; [|auto].
+        intros [Hin|Hin]; [|exact Hin]. exfalso.
+        destruct (go_paths_prefix c (pre ++ [i]) b ok ko _ Hgo (in_or_app _ _ _ (or_introl Hin)))
+          as [r' Hp].
+        rewrite <- app_assoc in Hp. apply app_inv_head in Hp. simpl in Hp. inversion Hp. lia.
+  Qed.
+
+  Lemma propagate_go_bare : forall t, bare_spec t.
+  Proof.
+    apply item_children_ind. intros t IH pre b ok ko H r n Hs Hpc. apply Forall_pchildren in IH.
+    rewrite propagate_go_unfold in H.
+    destruct r as [|j r]; simpl in Hs.
+    - inversion Hs; subst n. rewrite Hpc in H. simpl in H. rewrite app_nil_r.
+      exact (proj2 (resolve_bare t pre b ok ko Hpc H)).
+    - destruct (nth_error (pchildren t) j) as [c|] eqn:Hn; [|discriminate].
+      destruct (prop_list go pre 0 (pchildren t)) as [[sts oks] kos] eqn:Hl.
+      pose proof (prop_list_bare pre _ _ _ _ _ IH Hl j c r n Hn Hs Hpc) as Hb. simpl in Hb.
+      rewrite <- Hb. unfold resolve in H.
+      match type of H with (if ?c then _ else _) = _ => destruct c end;
+        inversion H; subst; clear H; [|reflexivity].
+      rewrite in_app_iff. simpl. split; [|auto].
+      intros [Hin|[Hp|[]]]; [exact Hin|]. exfalso.
+      rewrite <- (app_nil_r pre) in Hp at 1. apply app_inv_head in Hp. discriminate.
+  Qed.
+
+  Theorem propagate_bare_status t ok ko r n :
+    propagate d M O t = (ok, ko) -> subexpr_at t r = Some n -> pchildren n = [] ->
+    (In r ok <-> bare_status n r = true).
+  Proof.
+    unfold propagate. destruct (go t []) as [[b ok'] ko'] eqn:Hgo. intros H Hs Hpc.
+    inversion H; subst.
+    exact (propagate_go_bare t [] b ok ko Hgo r n Hs Hpc).
+  Qed.
+
+  (* an operation with zero operands, whatever matching / other are *)
+  Theorem propagate_empty_operation t ok ko r k m :
+    propagate d M O t = (ok, ko) -> subexpr_at t r = Some (Op k m []) ->
+    (In r ok <-> In r M \/ or_like dor k = false) /\
+    (In r ko <-> ~ In r M /\ or_like dor k = true).
+  Proof.
+    clear sigma. intros H Hs.
+    pose proof (propagate_bare_status t ok ko r (Op k m []) H Hs eq_refl) as Hb.
+    assert (Hbs : bare_status (Op k m []) r = true <-> In r M \/ or_like dor k = false).
+    { unfold bare_status. simpl. destruct (mem_path r M) eqn:E.
+      - apply mem_path_In in E. tauto.
+      - assert (~ In r M) by (intros Hin; apply mem_path_In in Hin; congruence).
+        destruct (or_like dor k); simpl; intuition congruence. }
+    destruct (propagate_partition t ok ko H) as [Hnd Hcl].
+    assert (Hin : In r (ok ++ ko)) by (apply Hcl; exists (Op k m []); exact Hs).
+    split; [rewrite Hb; exact Hbs|]. split.
+    - intros Hko.
+      assert (Hnok : ~ In r ok).
+      { intros Hok. clear - Hnd Hok Hko. induction ok as [|x ok' IH]; simpl in *; [contradiction|].
+        inversion Hnd as [|? ? Hx Hnd']; subst. destruct Hok as [Hok|Hok].
+        - subst x. apply Hx. apply in_or_app. auto.
+        - exact (IH Hnd' Hok). }
+      rewrite Hb, Hbs in Hnok. destruct (or_like dor k); [|exfalso; apply Hnok; auto].
+      split; [intros Hm; apply Hnok; auto|reflexivity].
+    - intros [HnM Hor]. apply in_app_or in Hin. destruct Hin as [Hok|Hko]; [|exact Hko].
+      exfalso. rewrite Hb, Hbs in Hok. destruct Hok as [Hm|Hf]; [exact (HnM Hm)|congruence].
   Qed.
 
 End Proofs.
